@@ -64,11 +64,11 @@ def run(ctx):
     st0 = pick(L, "status", guard_has=["<="])
     key = f"{l.key}::success only under new_energy <= start_energy"
     zeros = [r for r in L if r[0] == "status" and r[2] == "0.0"]
-    ctx.check("R17.1", key, len(zeros) == 1 and zeros[0][3] == frozenset({"new_energy <= start_energy"}),
+    ctx.check("R17.1", key, (len(zeros) == 1 and zeros[0][3] == frozenset({"new_energy <= start_energy"})) if [r for r in L if r[0] == "status"] else None,
               f"status becomes 0 under {[sorted(z[3]) for z in zeros]}", l)
     ne = pick(L, "new_energy")
     ctx.check("R17.1", f"{l.key}::the energy compared is fun_and_grad(new_pos)[0] of the returned new_pos",
-              len(ne) == 1 and ne[0][2] == "fun_and_grad(new_pos)[0.0]", ne[0][2] if ne else None, l)
+              (len(ne) == 1 and ne[0][2] == "fun_and_grad(new_pos)[0.0]") if ne else None, ne[0][2] if ne else None, l)
     ret = [r for r in L if r[0] == "ret"]
     if ret and isinstance(ret[0][5], ast.Dict):
         d = {k.value: src(v) for k, v in zip(ret[0][5].keys, ret[0][5].values)}
@@ -84,11 +84,11 @@ def run(ctx):
                   a[:4] == ["pos", "energy", "g", "nat_g"] and p[:4] == ["pos", "start_energy", "g", "nat_g"], f"args {a[:4]} -> params {p[:4]}", s)
     fail = pick(S, "status", guard_has=["ret_ls"])
     ctx.check("R17.1", f"{s.key}::failed line search ends the minimisation with status -1",
-              len(fail) == 1 and fail[0][2] == "-1.0" and fail[0][3] == frozenset({"ret_ls['status'] != 0.0"}), str([(f[2], sorted(f[3])) for f in fail]), s)
+              (len(fail) == 1 and fail[0][2] == "-1.0" and fail[0][3] == frozenset({"ret_ls['status'] != 0.0"})) if call else None, str([(f[2], sorted(f[3])) for f in fail]), s)
     for var, keyname in (("energy", "new_energy"), ("pos", "new_pos"), ("g", "new_g")):
         rows = [r for r in S if r[0] == var and "ret_ls" in r[2]]
         ctx.check("R17.1", f"{s.key}::`{var}` takes the line-search result only when it succeeded",
-                  len(rows) == 1 and rows[0][2] == f"ret_ls['{keyname}']" and rows[0][3] == frozenset({"status < -1.0"}),
+                  (len(rows) == 1 and rows[0][2] == f"ret_ls['{keyname}']" and rows[0][3] == frozenset({"status < -1.0"})) if (rows or call) and [r for r in S if r[0] == var] else None,
                   str([(r[2], sorted(r[3])) for r in rows]), s)
     # order: the success flag is computed before it gates the copies
     order = [g.target for g in guarded_assignments(s.node)]
